@@ -27,7 +27,9 @@ RULE = ("a case is a trace of operations on one real provider: authorization par
 ASSUMPTIONS = [
     "JWS signatures are ideal (symbolic Sig k (alg, claims)): verification succeeds iff the verifier holds key k and header/payload are the signed ones",
     "cryptojwt KeyJar/JWS key selection is as transcribed in Model/Jar.v lookup_keys / try_verify (one key per issuer and key type in the harness)",
-    "uuid4 request_uri values are fresh (never issued twice)",
+    "C16_unforgeable (Section Unforgeable: Variable K, k0, Hypothesis secret): the private key k0 of an honest client never occurs in anything published",
+    "the httpc fetch of a request_uri is an arbitrary finite table url -> document (docs); theorems hold for every table",
+    "uuid4 request_uri values are fresh (never issued twice): C16_par_once assumes NoDup of the pushed request_uris",
     "client authentication at the PAR endpoint is C01's subject: the harness always presents valid credentials of the pusher",
     "redirect URIs are simple https URIs compared as strings (URI matching is C06's subject)",
     "encrypted (JWE) request objects, jti/exp/nbf claims, nested request/request_uri claims are outside the modelled fragment",
